@@ -7,6 +7,7 @@ import WhVerif.Lemmas.C05PipelineExample
 import WhVerif.Lemmas.C05Lik
 import WhVerif.Lemmas.C05LikSolver
 import WhVerif.Lemmas.C05Recomb
+import WhVerif.Lemmas.C05Table
 /-!
 # C05 — pedigree phasing is Mendelian-consistent and ordered paternal|maternal
 
@@ -724,5 +725,96 @@ example : LawfulArith intOps ∧ intOps.phredRound intOps.minDist = .ok 120 ∧
     uniformRecombinationMap intOps 2 [10, 13, 40, 400] = .ok [0, 115, 67, 3] ∧
     uniformRecombinationMap intOps 2 [10, 10] = .error "ValueError" :=
   ⟨intOps_lawful, rfl, rfl, rfl, rfl, rfl⟩
+
+end WhVerif.Props.C05
+
+/-! ## the seam "constraint table ↔ input VCF", narrowed (`Model/C05Table.lean`)
+
+`pedigree_vcf_mendelian_input_gt` assumes `hlink`: the solver's trusted genotype of a member in column `c` is the member's
+call in the input record at that column's position.  The stage that produces the constraint table — `find_phaseable_variants`
+(missing genotypes, `mendelian_conflict`, homozygous variants), `subset_rows_by_position(accessible_positions)` with its
+assertion, `create_pedigree` → `Pedigree.add_individual(genotypes_of(sample))`, the column cost computer's genotype test —
+is now modelled (`constraintTable`) and `hlink` is PROVED from it; what remains assumed is the VCF reader alone
+(`hreader`: the VariantTable's genotype of a member at a variant has the alleles of the record's call). -/
+namespace WhVerif.Props.C05
+open WhVerif.C01 WhVerif.C05.Solver WhVerif.C05P WhVerif.C05 WhVerif.C05.L
+open WhVerif.C02P (posAt biallelic)
+
+/-- `subset_rows_by_position` + assertion: with strictly increasing variant positions and accessible positions the kept
+rows are exactly the accessible positions in order, and every kept row passed `find_phaseable_variants` (no missing
+genotype, no Mendelian conflict in any trio, heterozygous in some member unless `include_homozygous`) -/
+theorem constraint_rows_are_accessible_positions (tab : GtTable) (trios : List (Nat × Nat × Nat)) (incl : Bool)
+    (varPos acc rows : List Nat) (hpos : varPos.Pairwise (· < ·)) (hnv : varPos.length = nVariants tab)
+    (hacc : acc.Pairwise (· < ·))
+    (h : subsetRows varPos (findPhaseableVariants tab trios incl).2 acc = some rows) :
+    rows.map (varPos.getD · 0) = acc ∧
+    ∀ i ∈ rows, missingAt tab i = false ∧ conflictAt tab trios i = false ∧ (incl = true ∨ hetAt tab i = true) := by
+  have hkeep : (findPhaseableVariants tab trios incl).2.Pairwise (· < ·) := by
+    unfold findPhaseableVariants
+    exact List.Pairwise.filter _ List.pairwise_lt_range
+  have hk : ∀ i ∈ (findPhaseableVariants tab trios incl).2, i < varPos.length := by
+    intro i hi; rw [hnv]; exact (mem_keep.mp hi).1
+  obtain ⟨h1, h2⟩ := subsetRows_positions varPos _ acc rows hkeep hk hpos hacc h
+  refine ⟨h1, fun i hi => ?_⟩
+  have hr := (mem_keep.mp (h2 i hi)).2
+  obtain ⟨hm, hc⟩ := retained_spec hr
+  refine ⟨hm, hc, ?_⟩
+  unfold retained at hr
+  simp only [Bool.and_eq_true, Bool.or_eq_true] at hr
+  exact hr.1.1
+
+/-- **end to end against the INPUT records, seam narrowed to the VCF reader**: as `pedigree_vcf_mendelian_input_gt`, with
+`hlink` replaced by: the instance's constraint table is `buildGeno tab rows` for the rows `subset_rows_by_position` keeps of
+the phasable variants of the family's genotype table `tab` (variant positions `varPos` strictly increasing; `S.pos` are the
+accessible positions), and `hreader`: `tab`'s genotype of member `ind` at variant `i` has the alleles of the call of
+`names[ind]` in the record at `varPos[i]`. -/
+theorem pedigree_vcf_mendelian_input_table (S : Stage) (hwf : WF S.I) (hok : PedOK S.I) (htrust : Trusted S.I)
+    (hin : PedPipelineOk S) (β : List Bool) (τ : List Nat) (hw : witness S.I = some (β, τ))
+    (comps : List (Nat × Nat)) (hcomps : components S = .ok comps)
+    (k f m ch : Nat) (htr : S.I.trios[k]? = some (f, m, ch))
+    (tab : GtTable) (ftrios : List (Nat × Nat × Nat)) (incl : Bool) (varPos rows : List Nat)
+    (hpos : varPos.Pairwise (· < ·)) (hnv : varPos.length = nVariants tab)
+    (hsub : subsetRows varPos (findPhaseableVariants tab ftrios incl).2 S.pos = some rows)
+    (hgeno : S.I.geno = buildGeno tab rows)
+    (hreader : ∀ r ∈ S.records, ∀ i, i < varPos.length → r.pos = varPos.getD i 0 → ∀ ind, ind < S.I.nind → ∀ call,
+      WhVerif.C04.clookup r.calls (S.names.getD ind "") = some call →
+      WhVerif.C04.gcode call.gt = WhVerif.C04.sortNat (gtAt tab ind i)) :
+    ∃ rws, pipeline S = some rws ∧
+      ∀ row ∈ rws, ∀ j ph, S.header[j]? = some (S.names.getD ch "") → samplePhase row j = some ph →
+        ∃ a b, ph.alleles = [some a, some b] ∧
+          ∀ r ∈ S.records, r.pos = row.pos → ∀ cf cm,
+            WhVerif.C04.clookup r.calls (S.names.getD f "") = some cf →
+            WhVerif.C04.clookup r.calls (S.names.getD m "") = some cm →
+            a ∈ WhVerif.C04.gcode cf.gt ∧ b ∈ WhVerif.C04.gcode cm.gt :=
+  pedigree_vcf_mendelian_input_gt S hwf hok htrust hin β τ hw comps hcomps k f m ch htr
+    (hlink_of_table S hin tab ftrios incl varPos rows hpos hnv hsub hgeno hreader)
+
+/-- non-vacuity: the family table behind `exPed` — three variants at 100, 150, 200; the one at 150 is a Mendelian conflict
+(0/0 × 0/0 → 0/1) and is dropped by `find_phaseable_variants`; accessible positions 100 and 200 ⇒ rows `[0, 2]`, the
+constraint table is exactly `exPed.geno`, and the table agrees with the calls of `exRecords` -/
+def exTab : GtTable := [[[1, 0], [0, 0], [1, 0]], [[0, 0], [0, 0], [1, 0]], [[1, 0], [1, 0], [1, 0]]]
+
+def exReaderOk (r : WhVerif.C04.Record) (i ind : Nat) : Bool :=
+  match WhVerif.C04.clookup r.calls (["dad", "mom", "kid"].getD ind "") with
+  | some call => WhVerif.C04.gcode call.gt == WhVerif.C04.sortNat (gtAt exTab ind i)
+  | none => true
+
+example (tag : WhVerif.C04.Tag) :
+    constraintTable exTab [(0, 1, 2)] false [100, 150, 200] (exStage tag).pos = some ([0, 2], (exStage tag).I.geno) ∧
+    [100, 150, 200].Pairwise (· < ·) ∧ [100, 150, 200].length = nVariants exTab ∧
+    (∀ r ∈ (exStage tag).records, ∀ i, i < [100, 150, 200].length → r.pos = [100, 150, 200].getD i 0 →
+      ∀ ind, ind < (exStage tag).I.nind → ∀ call,
+      WhVerif.C04.clookup r.calls ((exStage tag).names.getD ind "") = some call →
+      WhVerif.C04.gcode call.gt = WhVerif.C04.sortNat (gtAt exTab ind i)) := by
+  have h0 : constraintTable exTab [(0, 1, 2)] false [100, 150, 200] [100, 200] = some ([0, 2], exPed.geno) := by decide
+  refine ⟨h0, by decide, by decide, ?_⟩
+  have hall : ∀ r ∈ exRecords, ∀ i, i < 3 → ∀ ind, ind < 3 → r.pos = [100, 150, 200].getD i 0 → exReaderOk r i ind = true := by
+    decide +kernel
+  intro r hr i hi hp ind hind call hcall
+  have := hall r hr i hi ind hind hp
+  have h1 : WhVerif.C04.clookup r.calls (["dad", "mom", "kid"].getD ind "") = some call := hcall
+  unfold exReaderOk at this
+  rw [h1] at this
+  exact beq_iff_eq.mp this
 
 end WhVerif.Props.C05
